@@ -175,7 +175,14 @@ class PureSnapshot:
         output (Any): Output when the machine completed.
     """
 
-    __slots__ = ("state_ids", "configuration", "context", "status", "output")
+    __slots__ = (
+        "state_ids",
+        "configuration",
+        "context",
+        "status",
+        "output",
+        "history",
+    )
 
     def __init__(
         self,
@@ -184,6 +191,7 @@ class PureSnapshot:
         context: Dict[str, Any],
         status: str = "active",
         output: Any = None,
+        history: Optional[Dict[str, List[str]]] = None,
     ) -> None:
         """Initializes the snapshot.
 
@@ -199,6 +207,10 @@ class PureSnapshot:
         self.context = context
         self.status = status
         self.output = output
+        #: Remembered configurations for history pseudo-states (parent id ->
+        #: state ids), so a history target taken in a LATER `transition()`
+        #: call still restores what was active, as an interpreter would.
+        self.history = history if history is not None else {}
 
     def matches(self, state_id: str) -> bool:
         """Reports whether a state is active in this snapshot.
@@ -256,15 +268,66 @@ def _build_probe(
             `assign` is still applied, because context updates are part of the
             computed next state rather than an external side effect.
             """
-            from .actions import ASSIGN, resolve_builtin
+            from .actions import (
+                ASSIGN,
+                CHOOSE,
+                ENQUEUE_ACTIONS,
+                PURE,
+                RAISE,
+                resolve_builtin,
+            )
 
             for action_def in actions or []:
                 recorded.append(action_def)
-                if resolve_builtin(action_def.type) == ASSIGN:
-                    self._apply_assign(
-                        self._resolve_params(action_def.params, event) or {},
-                        event,
+                if action_def.type in self.machine.logic.actions:
+                    continue  # a user implementation shadows the built-in
+                canonical = resolve_builtin(action_def.type)
+                try:
+                    if canonical == ASSIGN:
+                        self._apply_assign(
+                            self._resolve_params(action_def.params, event)
+                            or {},
+                            event,
+                        )
+                    elif canonical in (PURE, CHOOSE, ENQUEUE_ACTIONS):
+                        # 🌿 The actions these produce are part of the step:
+                        #    an interpreter runs them (and applies their
+                        #    assigns), so they are reported and applied too.
+                        followups = self._collect_builtin_followups(
+                            canonical, action_def, event
+                        )
+                        if followups:
+                            self._action_depth += 1
+                            try:
+                                self._execute_actions(
+                                    [ActionDefinition(f) for f in followups],
+                                    event,
+                                )
+                            finally:
+                                self._action_depth -= 1
+                    elif canonical == RAISE:
+                        # 📨 A raised event is handled within the same step by
+                        #    an interpreter; leaving it unprocessed made the
+                        #    computed next state differ from the real one.
+                        params = (
+                            self._resolve_params(action_def.params, event)
+                            or {}
+                        )
+                        if not self._resolve_delay(
+                            params.get("delay"), event
+                        ):
+                            self.send(
+                                self._resolve_event_spec(
+                                    params.get("event"), event
+                                )
+                            )
+                except Exception:
+                    logger.exception(
+                        "🔥 Built-in action '%s' raised in the pure API; "
+                        "skipping remaining actions.",
+                        action_def.type,
                     )
+                    return
 
         def _schedule_state_tasks(self, state: Any) -> None:
             """Suppresses timers and invoked services entirely."""
@@ -296,6 +359,10 @@ def _capture(probe: Any) -> PureSnapshot:
         context=copy.deepcopy(probe.context),
         status=status,
         output=probe.output,
+        history={
+            parent_id: sorted(node.id for node in nodes)
+            for parent_id, nodes in probe._history.items()
+        },
     )
 
 
@@ -351,6 +418,7 @@ def transition(
                 context=copy.deepcopy(snapshot.context),
                 status=snapshot.status,
                 output=snapshot.output,
+                history=copy.deepcopy(snapshot.history),
             ),
             [],
         )
@@ -364,6 +432,16 @@ def transition(
         node = machine.get_state_by_id(state_id)
         if node is not None:
             probe._active_state_nodes.add(node)
+
+    # 🕰️ Restore what history pseudo-states remember.
+    for parent_id, node_ids in (snapshot.history or {}).items():
+        nodes = [
+            node
+            for node in (machine.get_state_by_id(nid) for nid in node_ids)
+            if node is not None
+        ]
+        if nodes:
+            probe._history[parent_id] = nodes
 
     # 📭 Only actions from THIS step should be reported.
     recorded.clear()
